@@ -148,11 +148,14 @@ def generate():
     sl = need(m.group(0) if m else None, "peer expiry loop in GenericCloud::housekeep", "")
     out += ("\nimpl XCloud {\n    pub fn expired_peers_slice(&self, now: Time) -> smallvec::ivec::IVec<u8, 8> {\n"
             "        let mut del: smallvec::ivec::IVec<u8, 8> = smallvec::ivec::IVec::new();\n" + sl + "\n        del\n    }\n}\n")
-    refresh = re.findall(r"^\s*(?:peer\.)?timeout(?:: | = )TS::now\(\) \+ self\.config\.peer_timeout as Time[;,]", cloud, re.M)
-    if len(refresh) != 2:
-        problems.append("expected the peer expiry to be set in exactly two places (add_new_peer, update_peer_info), found %d" % len(refresh))
-    m = re.search(r"^( *)peer\.timeout = TS::now\(\) \+ self\.config\.peer_timeout as Time;", cloud, re.M)
-    sl = need(m.group(0) if m else None, "expiry refresh in GenericCloud::update_peer_info", "peer.timeout = 0;")
+    refresh = re.findall(r"^\s*timeout: TS::now\(\) \+ self\.config\.peer_timeout as Time,", cloud, re.M)
+    if len(refresh) != 1:
+        problems.append("expected the initial peer expiry `timeout: TS::now() + self.config.peer_timeout as Time,` exactly once (add_new_peer), found %d" % len(refresh))
+    # the refresh: every statement of update_peer_info between `if let Some(peer) = self.peers.get_mut(&addr) {` and the address update
+    upi = extract_item(cloud, r"^    fn update_peer_info\s*\(") or ""
+    m = re.search(r"if let Some\(peer\) = self\.peers\.get_mut\(&addr\) \{\n(.*?)\n\s*if let Some\(info\) = &info \{", upi, re.S)
+    sl = m.group(1) if m and "peer.timeout" in m.group(1) else None
+    sl = need(sl, "expiry refresh in GenericCloud::update_peer_info", "peer.timeout = 0;")
     out += ("pub struct XNodeCfg {\n    pub peer_timeout: Duration,\n}\npub struct XRefresher {\n    pub config: XNodeCfg,\n}\n"
             "impl XRefresher {\n    pub fn refresh_slice<TS: crate::util::TimeSource>(&self, peer: &mut XPeer) {\n" + sl + "\n    }\n}\n")
     # reconnect_to_peers: the back-off step
